@@ -10,6 +10,7 @@ import Pxv.Driver.Ty
 import Pxv.Driver.Domain
 import Pxv.Driver.Bp
 import Pxv.Driver.Scope
+import Pxv.Driver.Life
 open Pxv.Driver
 
 def main (args : List String) : IO UInt32 := do
@@ -26,4 +27,5 @@ def main (args : List String) : IO UInt32 := do
   | ["domain"] => serve Pxv.Domain.handle; return 0
   | ["bp"] => serve Pxv.Bp.handle; return 0
   | ["scope"] => serve Pxv.Scope.handle; return 0
+  | ["life"] => serve Pxv.Life.handle; return 0
   | _ => IO.eprintln "usage: pxmodel <model>"; return 2
